@@ -87,9 +87,9 @@ def run_group(ctx, group, prefix="C11", c12=False):
             for kd, det in fails:
                 st.violation(f"{prefix}/{kd}", {"kind": kind, "x": d}, det)
     else:
-        for a_d, b_d in LC.solve_systems(ctx, sym, ferm):
-            if c12 and ferm:
-                break
+        for a_d, b_d, dense_ok in LC.solve_systems(ctx, sym, ferm):
+            if c12 and (ferm or not dense_ok):
+                continue
             a, b = build(a_d), build(b_d)
             fails = LC.solve_failures(a, b, st, c12=c12)
             st.evaluations += 1
